@@ -1,13 +1,17 @@
 #!/usr/bin/env bash
-# tools/seeded.sh <seeded-dir> <check-id>... : apply a seeded change to /repo, run the given quick checks, restore /repo.
-# prints one line per check: id, exit code, first signatures
+# tools/seeded.sh <seeded-dir> <check-id>...
+# Runs the given quick checks (TIER=thorough for the other tier) against a scratch worktree of /repo's HEAD carrying the
+# seeded change; /repo itself and the committed evidence are never touched, so several of these can run in parallel.
+# Prints one line per check: seeded id, check, exit code, summary, first signatures.
 set -u
 D="$(cd "$1" && pwd)"; shift
-cd /repo && git diff --quiet || { echo "repo dirty"; exit 2; }
-git -C /repo apply "$D/patch.diff" || { echo "patch does not apply"; exit 2; }
-trap 'git -C /repo checkout -- . ; git -C /repo clean -fdq -- pkg 2>/dev/null' EXIT
+V="$(cd "$(dirname "${BASH_SOURCE[0]}")/.." && pwd)"
+WT=$(mktemp -d /tmp/sd-XXXXXX); OUT=$(mktemp -d /tmp/sdo-XXXXXX)
+trap 'git -C /repo worktree remove --force "$WT/r" 2>/dev/null; rm -rf "$WT" "$OUT"' EXIT
+git -C /repo worktree add -q --detach "$WT/r" HEAD || { echo "worktree failed"; exit 2; }
+git -C "$WT/r" apply "$D/patch.diff" || { echo "$(basename "$D") PATCH DOES NOT APPLY"; exit 2; }
 for id in "$@"; do
-  out=$(cd /verif && VERIF_EVIDENCE=/tmp/seeded-evidence.json ./run.sh "$id" "${TIER:-quick}" 2>&1); rc=$?
-  sigs=$(echo "$out" | grep -E '^  signature:' | sort | uniq -c | sort -rn | head -4 | tr '\n' ';')
-  echo "$(basename "$D") $id rc=$rc $(echo "$out" | grep -E '^(SUMMARY|INCONCLUSIVE)' | head -1 | cut -c1-120) $sigs"
+  out=$(cd "$V" && VERIF_REPO="$WT/r" VERIF_OUT="$OUT" ./run.sh "$id" "${TIER:-quick}" 2>&1); rc=$?
+  sigs=$(echo "$out" | grep -E '^  signature:' | sed 's/  signature: //' | sort | uniq -c | sort -rn | head -4 | awk '{printf "%s x%s; ", $2, $1}')
+  echo "$(basename "$D") $id rc=$rc $(echo "$out" | grep -E '^(SUMMARY|INCONCLUSIVE)' | head -1 | sed -E 's/property=[A-Z0-9]+ //; s/distinct_nontrivial=[0-9]+ //' | cut -c1-110) | $sigs"
 done
